@@ -9,7 +9,8 @@
    Document::parse is proved to act independently on the two sides of the cut (C12_condense_*_split,
    C12_condense_split); what remains assumed of the model is H_rules_local alone. *)
 Require Import Base Overlap Tables_lexer Lexer Condense TokenInv CondenseInv ParaSplit ParaSplitProofs C12Doc LexSplitProofs LongSentencesSeam
-  C12CondSpaces C12CondSuffix C12CondPattern C12CondPatterns3 C12CondInit C12CondQuotes C12LexEnds C12CondSplit.
+  C12CondSpaces C12CondSuffix C12CondPattern C12CondPatterns3 C12CondInit C12CondQuotes C12LexEnds C12CondSplit
+  Tables_c12rules C12RuleShapes.
 From Coq Require Import Sorting.Permutation.
 
 (* the index arithmetic of iter_chunks / iter_sentences / iter_paragraphs never slices out of range and
@@ -357,6 +358,41 @@ Check C12_main_lexer_partial : forall u,
                  ++ map (shift_lint (length P)) (lints (doc_tokens u) chunk_fn rules D)).
 Print Assumptions C12_main_lexer_partial.
 
+(* ---------- the struct rules by the shape of their bodies (generated table, phase 3) ---------- *)
+(* a rule that is an instance of the schema its shape names is paragraph-local *)
+Theorem C12_shape_local : forall s mk g0, shape_schema s = Some mk -> para_local (mk g0).
+Proof. exact shape_local. Qed.
+Check C12_shape_local : forall s mk g0, shape_schema s = Some mk -> para_local (mk g0).
+Print Assumptions C12_shape_local.
+
+(* of the struct rules of LintGroup::new_curated (table regenerated from linting/*.rs on every run) exactly the ten
+   named in unclassified_expected have a body whose shape denotes no proved schema (index neighbourhoods,
+   tuple windows, a loop over all tokens, merge_linters!, a document-wide remove_overlaps); a PatternLinter
+   registered as a struct rule runs the blanket impl, whose shape is IterChunks *)
+Theorem C12_struct_rules_classified :
+  unclassified_rules = unclassified_expected /\
+  resolve ViaPatternLinter = IterChunks /\
+  60 <= length (filter classified struct_rules) /\
+  length struct_rules = length (filter classified struct_rules) + length unclassified_expected.
+Proof. exact struct_rules_classified. Qed.
+Check C12_struct_rules_classified :
+  unclassified_rules = unclassified_expected /\
+  resolve ViaPatternLinter = IterChunks /\
+  60 <= length (filter classified struct_rules) /\
+  length struct_rules = length (filter classified struct_rules) + length unclassified_expected.
+Print Assumptions C12_struct_rules_classified.
+
+Theorem C12_classified_rules_local :
+  Forall (fun r => classified r = true ->
+                   exists mk, shape_schema (resolve (row_shape r)) = Some mk /\ forall g0, para_local (mk g0))
+         struct_rules.
+Proof. exact classified_rules_local. Qed.
+Check C12_classified_rules_local :
+  Forall (fun r => classified r = true ->
+                   exists mk, shape_schema (resolve (row_shape r)) = Some mk /\ forall g0, para_local (mk g0))
+         struct_rules.
+Print Assumptions C12_classified_rules_local.
+
 (* ---------- non-vacuity ---------- *)
 
 (* ---------- one rule body: LongSentences as repaired by 1bab09f (finding FC12a) ---------- *)
@@ -512,3 +548,8 @@ Proof.
   split; [split; [repeat constructor|exists (firstn 12 ex_P), 46%N; split; [reflexivity|now left]]|].
   split; [cbn; discriminate|]. repeat split; vm_compute; reflexivity.
 Qed.
+
+(* non-vacuity of the rule table: LongSentences (the modelled rule body) is a sentence-schema rule, SpellCheck a
+   one-token window rule, a MapPhraseLinter registered as a struct rule a chunk-schema rule *)
+Example C12_rule_shapes_nonvacuous : incl rule_rows_example struct_rules /\ length struct_rules = 74.
+Proof. exact rule_shapes_example. Qed.
